@@ -169,12 +169,12 @@ impl AuthenticatorData {
     { unimplemented!() }
     #[verifier::external_body]
     pub fn set_flags(self, flags: Flags) -> (r: Self)
-        ensures r.rp_id == self.rp_id, r.counter == self.counter, r.attested == self.attested, r.ext_mc == self.ext_mc, r.ext_ga == self.ext_ga, forall|i: u8| 0 <= i < 8 ==> #[trigger] r.flags.has(i) == (self.flags.has(i) || flags.has(i))
+        ensures r.rp_id == self.rp_id, r.counter == self.counter, r.attested == self.attested, r.ext_mc == self.ext_mc, r.ext_ga == self.ext_ga, forall|i: u8| 0 <= i < 6 ==> #[trigger] r.flags.has(i) == (self.flags.has(i) || flags.has(i)), r.flags.has(6) == r.attested.is_some()
     { unimplemented!() }
     #[verifier::external_body]
     pub fn set_attested_credential_data(self, acd: AttestedCredentialData) -> (r: Self)
         ensures r.rp_id == self.rp_id, r.counter == self.counter, r.attested == Some(acd), r.ext_mc == self.ext_mc, r.ext_ga == self.ext_ga,
-           forall|i: u8| 0 <= i < 8 ==> #[trigger] r.flags.has(i) == (self.flags.has(i) || i == 6)
+           forall|i: u8| 0 <= i < 7 ==> #[trigger] r.flags.has(i) == (self.flags.has(i) || i == 6)
     { unimplemented!() }
     #[verifier::external_body]
     pub fn set_make_credential_extensions(self, e: Option<passkey_types::ctap2::make_credential::SignedExtensionOutputs>) -> (r: Result<Self, Ctap2Error>)
